@@ -1121,9 +1121,9 @@ Family fam_copy = { "copy", "prefix ; mpq_QScopy_prob ; interleaved steps on ori
  * item = (start problem, optional one-operation prefix, parameter setting, entry point); the parameter is set on the original,
  * the copy is taken, both are solved cold by the same entry point: return value, status and optimal value must be equal.
  * The getters already agree in family copy; this one shows that what the parameters *do* was copied too (derived fields). */
-#define NCPAR 12
+#define NCPAR 14
 static const char *cpar_name[NCPAR] = { "none", "primal_pricing=devex", "dual_pricing=dantzig", "scaling=0", "max_iterations=1", "max_iterations=2",
-	"objulim=-1000", "objulim=1000", "objllim=1000", "objllim=-1000", "objulim=0", "objllim=0" };
+	"objulim=-1000", "objulim=1000", "objllim=1000", "objllim=-1000", "objulim=0", "objllim=0", "primal_pricing=devex+scaling=0", "dual_pricing=devex+scaling=0" };
 static int cpar_apply (mpq_QSprob p, int k)
 {
 	mpq_t v; int rv = 0;
@@ -1134,6 +1134,8 @@ static int cpar_apply (mpq_QSprob p, int k)
 	case 3: return mpq_QSset_param (p, QS_PARAM_SIMPLEX_SCALING, 0);
 	case 4: return mpq_QSset_param (p, QS_PARAM_SIMPLEX_MAX_ITERATIONS, 1);
 	case 5: return mpq_QSset_param (p, QS_PARAM_SIMPLEX_MAX_ITERATIONS, 2);
+	case 12: return mpq_QSset_param (p, QS_PARAM_PRIMAL_PRICING, QS_PRICE_PDEVEX) | mpq_QSset_param (p, QS_PARAM_SIMPLEX_SCALING, 0);
+	case 13: return mpq_QSset_param (p, QS_PARAM_DUAL_PRICING, QS_PRICE_DDEVEX) | mpq_QSset_param (p, QS_PARAM_SIMPLEX_SCALING, 0);
 	default:
 		mpq_init (v);
 		mpq_set_si (v, k == 6 || k == 9 ? -1000 : k == 7 || k == 8 ? 1000 : 0, 1);
@@ -1143,7 +1145,7 @@ static int cpar_apply (mpq_QSprob p, int k)
 	}
 }
 static void cpar_init (void) { build_alphabets (); }
-static long cpar_count (void) { return (long) NSTART * (n_full + 1) * NCPAR * 4; }
+static long cpar_count (void) { return (long) NSTART * (n_full + 1) * NCPAR * 4 * 2; }
 static void cpar_solve (mpq_QSprob p, int entry, int *rv, int *st, mpq_t val)
 {
 	*st = -1;
@@ -1160,7 +1162,8 @@ static void cpar_run (long item)
 	int start = (int) (r % NSTART); r /= NSTART;
 	int pre = (int) (r % (n_full + 1)); r /= (n_full + 1);
 	int par = (int) (r % NCPAR); r /= NCPAR;
-	int entry = (int) (r % 4);
+	int entry = (int) (r % 4); r /= 4;
+	int order = (int) (r % 2);      /* 0: set ; copy ; solve both.  1: set ; solve original ; copy ; solve copy ; free copy ; re-solve original */
 	HState S; memset (&S, 0, sizeof S);
 	sb_init (&S.desc); sb_reserve (&S.desc, 4096);
 	qsx_log_reset ();
@@ -1179,15 +1182,16 @@ static void cpar_run (long item)
 	if (!stop && S.M->n == 0) { STAT ("prefix_inapplicable"); stop = 1; }
 	if (!stop) {
 		if (cpar_apply (S.p, par)) viol ("C07", "setparam-valid-rejected", "valid parameter %s rejected [start=%s%s]", cpar_name[par], start_name[start], S.desc.s);
+		int rv0 = 0, st0 = 0, rv1, st1; mpq_t v0, v1, v2; mpq_init (v0); mpq_init (v1); mpq_init (v2);
+		if (order == 1) { cpar_solve (S.p, entry, &rv0, &st0, v0); STAT ("executions"); }
 		mpq_QSprob c = mpq_QScopy_prob (S.p, "thecopy");
 		STAT ("api_transitions"); STAT ("copies"); STAT ("instances");
 		if (par) STAT ("instances_nontrivial");
 		if (!c) viol ("C16", "copy-failed", "mpq_QScopy_prob returned NULL [start=%s%s ; %s]", start_name[start], S.desc.s, cpar_name[par]);
 		else {
-			int rv0, st0, rv1, st1; mpq_t v0, v1; mpq_init (v0); mpq_init (v1);
-			cpar_solve (S.p, entry, &rv0, &st0, v0);
+			if (order == 0) { cpar_solve (S.p, entry, &rv0, &st0, v0); STAT ("executions"); }
 			cpar_solve (c, entry, &rv1, &st1, v1);
-			STAT ("executions"); STAT ("executions");
+			STAT ("executions");
 			{ char nm[64]; snprintf (nm, sizeof nm, "status_%s", rv0 ? "ERR" : status_name (st0)); stat_dyn (nm, ""); }
 			tr_int (rv0); tr_int (st0); tr_int (rv1); tr_int (st1); tr_mpq (v0); tr_mpq (v1);
 			if (rv0 != rv1 || st0 != st1 || !mpq_equal (v0, v1)) {
@@ -1196,10 +1200,26 @@ static void cpar_run (long item)
 					rv0, status_name (st0), a, rv1, status_name (st1), b, start_name[start], S.desc.s);
 				free (a); free (b);
 			}
-			if (sample_wanted ()) sample ("start=%s%s ; set %s ; COPY ; %s on both -> %s", start_name[start], S.desc.s, cpar_name[par], ename[entry], rv0 ? "ERR" : status_name (st0));
-			mpq_clear (v0); mpq_clear (v1);
+			if (sample_wanted ()) sample ("start=%s%s ; set %s ; %s ; %s on both -> %s", start_name[start], S.desc.s, cpar_name[par], order ? "solve ; COPY" : "COPY", ename[entry], rv0 ? "ERR" : status_name (st0));
 			mpq_QSfree_prob (c);
+			if (order == 1) {
+				/* the original must survive its copy: same answer again, from its own (warm) state */
+				int rv2, st2; cpar_solve (S.p, entry, &rv2, &st2, v2);
+				STAT ("executions");
+				tr_int (rv2); tr_int (st2); tr_mpq (v2);
+				int definitive = !rv0 && (st0 == QS_LP_OPTIMAL || st0 == QS_LP_INFEASIBLE || st0 == QS_LP_UNBOUNDED);
+				if (definitive && entry == 1 && st0 != QS_LP_OPTIMAL) {
+					/* known finding (C04/C05): the direct dual simplex on an LP that is really unbounded answers INFEASIBLE or UNSOLVED */
+					Truth *T = ref_solve (S.M);
+					if (T->status == TRUTH_UNBOUNDED) { definitive = 0; STAT ("skipped_dual_on_unbounded"); }
+					truth_free (T);
+				}   /* a limit status legitimately moves on when the solve is resumed */
+				if (definitive && (rv2 != rv0 || st2 != st0 || !mpq_equal (v0, v2)))
+					viol ("C16", "original-differs-after-copy-freed", "%s with %s: original rval=%d status=%s before, rval=%d status=%s after its copy was solved and freed [start=%s%s]", ename[entry], cpar_name[par],
+						rv0, status_name (st0), rv2, status_name (st2), start_name[start], S.desc.s);
+			}
 		}
+		mpq_clear (v0); mpq_clear (v1); mpq_clear (v2);
 	}
 	if (S.last) obs_free (S.last);
 	if (S.p) mpq_QSfree_prob (S.p);
